@@ -1,5 +1,6 @@
-(* C05 -- outside the recorded finding classes the code as it is (fx = false) and the repaired
-   mechanism (fx = true) do the same thing, statement by statement. *)
+(* C05 -- outside the recorded finding class the code as it is (`step false`) and the repaired
+   mechanism (`step true`) do the same thing, statement by statement; and outside the FORMER
+   classes the code before the repairs (`step_old`) did what the code does now. *)
 From Coq Require Import ZArith List Bool Lia.
 From TV Require Import Model.SqlSpec Model.DmlSpec Model.Tombstone Proof.SqlSpecLaws Proof.TombBase Proof.StmtAtomic.
 Import ListNotations.
@@ -157,47 +158,68 @@ Proof.
 Qed.
 
 (* ------------------------------------------------------------------ the statement *)
+(* the code as it is and the code with the last proposed repair differ only on an INSERT that
+   fails after its first row *)
 Theorem step_same : forall sch st s, stmt_class sch st s = 0 -> step false sch st s = step true sch st s.
 Proof.
-  intros sch st s Hc. unfold stmt_class in Hc. destruct s as [rows ret|w ret|sets w ret| |]; cbn [step] in *.
-  - (* INSERT *)
-    unfold do_insert in *. destruct (forallb (row_known (s_tys sch)) rows); [|reflexivity].
-    destruct (ins_loop sch st rows 0) as [[b s1] n] eqn:E. destruct b; [reflexivity|]. cbn [fst] in Hc.
-    destruct (0 <? n) eqn:En; [discriminate|]. apply Z.ltb_ge in En.
-    pose proof (ins_loop_count_ge _ _ _ _ _ _ _ E).
-    rewrite (ins_loop_fail_first _ _ _ _ _ _ E) by lia. reflexivity.
+  intros sch st s Hc. unfold stmt_class in Hc. destruct s as [rows ret|w ret|sets w ret| |]; cbn [step] in *;
+    try reflexivity.
+  unfold do_insert in *. destruct (forallb (row_known (s_tys sch)) rows); [|reflexivity].
+  destruct (ins_loop sch st rows 0) as [[b s1] n] eqn:E. destruct b; [reflexivity|]. cbn [fst] in Hc.
+  destruct (0 <? n) eqn:En; [discriminate|]. apply Z.ltb_ge in En.
+  pose proof (ins_loop_count_ge _ _ _ _ _ _ _ E).
+  rewrite (ins_loop_fail_first _ _ _ _ _ _ E) by lia. reflexivity.
+Qed.
+
+(* what the repairs 6de60fd / 42a3914 / dd7107b / 00edbdb changed: outside the former classes
+   (no tombstone collected, no RETURNING on the one-pass path, no literal assignment read by
+   another SET expression, no NULL arithmetic) the code before them did what the code does now *)
+Definition old_class (sch : schema) (st : tstate) (s : stmt) : Z :=
+  match s with
+  | SDelete w _ => if existsb e_del (select false sch w st) then 1 else 0
+  | SUpdate sets w ret =>
+      if existsb e_del (select false sch w st) then 2
+      else if ret && onepass sch sets w st then 5
+      else if sets_mix sets then 6
+      else match new_rows false sch sets (select false sch w st) with
+           | UEvalErr => 7
+           | _ => 0
+           end
+  | STruncate => if existsb e_del (ents st) then 3 else 0
+  | _ => 0
+  end.
+Theorem step_old_same : forall sch st s, old_class sch st s = 0 -> step_old sch st s = step false sch st s.
+Proof.
+  intros sch st s Hc. unfold old_class in Hc. destruct s as [rows ret|w ret|sets w ret| |]; cbn [step step_old] in *;
+    try reflexivity.
   - (* DELETE *)
-    unfold do_delete in *. destruct (where_modelled w st); [|reflexivity]. cbn [fst] in Hc.
+    unfold do_delete in *. destruct (where_modelled w st); [|reflexivity].
     destruct (existsb e_del (select false sch w st)) eqn:D; [discriminate|].
     rewrite (select_same _ _ _ D). reflexivity.
   - (* UPDATE *)
     unfold do_update in *. destruct (where_modelled w st && sets_modelled sch sets) eqn:M; [|reflexivity].
-    destruct (existsb e_del (select false sch w st)) eqn:D.
-    { destruct (new_rows false sch sets (select false sch w st)); cbn [fst] in Hc; discriminate. }
+    destruct (existsb e_del (select false sch w st)) eqn:D; [discriminate|].
     rewrite (select_same _ _ _ D).
-    destruct (ret && onepass sch sets w st) eqn:OP.
-    { destruct (new_rows false sch sets (select false sch w st)); cbn [fst] in Hc; discriminate. }
-    destruct (sets_mix sets) eqn:MX.
-    { destruct (new_rows false sch sets (select false sch w st)); cbn [fst] in Hc; discriminate. }
+    destruct (ret && onepass sch sets w st) eqn:OP; [discriminate|].
+    destruct (sets_mix sets) eqn:MX; [discriminate|].
     apply andb_true_iff in M. destruct M as [_ M]. unfold sets_modelled in M.
     apply andb_true_iff in M. destruct M as [M _]. apply andb_true_iff in M. destruct M as [M _].
     apply andb_true_iff in M. destruct M as [M _].
     destruct (new_rows_rel sch sets MX M (select false sch w st)) as [RU RE].
-    destruct (new_rows false sch sets (select false sch w st)) as [news| | |] eqn:NR; cbn [fst] in Hc.
+    destruct (new_rows false sch sets (select false sch w st)) as [news| | |] eqn:NR.
     + rewrite <- RE by discriminate. cbn [negb andb].
       destruct (onepass sch sets w st); [|reflexivity].
       rewrite andb_true_r in OP. subst ret. reflexivity.
     + discriminate.
     + rewrite <- RE by discriminate. reflexivity.
-    + discriminate.
+    + assert (X : UUn = UUn) by reflexivity. apply RU in X. rewrite X. reflexivity.
   - (* TRUNCATE *)
-    unfold do_truncate in *. cbn [fst] in Hc. destruct (existsb e_del (ents st)) eqn:D; [discriminate|].
+    unfold do_truncate in *. destruct (existsb e_del (ents st)) eqn:D; [discriminate|].
     f_equal. f_equal. f_equal.
     assert (G : forall es, existsb e_del es = false -> filter (cand false) es = filter (cand true) es).
     { induction es as [|e es IH]; cbn [filter existsb cand]; intro H; [reflexivity|].
       apply orb_false_iff in H. destruct H as [De H]. unfold live. rewrite De. cbn [negb]. rewrite IH by exact H. reflexivity. }
     apply G. exact D.
-  - reflexivity.
 Qed.
 
 (* class 0 also means the statement is inside the modelled fragment *)
